@@ -25,6 +25,43 @@ func FakeSnapshot() *gocbcore.ConfigSnapshot {
 	return snap
 }
 
+// Trace is one log shared by several fakes, so that the order of calls across them is known.
+type Trace struct {
+	mu sync.Mutex
+	Ev []TraceEv
+}
+type TraceEv struct {
+	Kind string // cb closereq openreq dcpclose cliclose save consume ping
+	Name string
+	Vb   uint16
+	Save *SaveCall
+}
+
+func (t *Trace) Add(e TraceEv) {
+	if t == nil {
+		return
+	}
+	t.mu.Lock()
+	t.Ev = append(t.Ev, e)
+	t.mu.Unlock()
+}
+func (t *Trace) Len() int {
+	if t == nil {
+		return 0
+	}
+	t.mu.Lock()
+	defer t.mu.Unlock()
+	return len(t.Ev)
+}
+func (t *Trace) Since(n int) []TraceEv {
+	if t == nil {
+		return nil
+	}
+	t.mu.Lock()
+	defer t.mu.Unlock()
+	return append([]TraceEv{}, t.Ev[n:]...)
+}
+
 // OpenCall is one recorded Client.OpenStream call.
 type OpenCall struct {
 	VbID     uint16
@@ -44,12 +81,43 @@ type StreamClient struct {
 	SeqNoErr   error
 	FailLogErr error
 	Opens      []OpenCall
+	OpenCount  int
 	Closes     []uint16
 	Observers  map[uint16]couchbase.Observer
 	OpenCh     chan uint16     // signalled on every OpenStream call
 	OnOpen     func(vb uint16) // called synchronously at the start of every OpenStream call
 	NumVb      int
 	snap       *gocbcore.ConfigSnapshot
+	Trace      *Trace
+	Colls      map[uint32]string // GetCollectionIDs
+	Pings      int
+	DcpCloses  int
+	Closed     int
+}
+
+func (c *StreamClient) Ping() (*models.PingResult, error) {
+	c.mu.Lock()
+	c.Pings++
+	c.mu.Unlock()
+	c.Trace.Add(TraceEv{Kind: "ping"})
+	return &models.PingResult{}, nil
+}
+func (c *StreamClient) DcpClose() {
+	c.mu.Lock()
+	c.DcpCloses++
+	c.mu.Unlock()
+	c.Trace.Add(TraceEv{Kind: "dcpclose"})
+}
+func (c *StreamClient) Close() {
+	c.mu.Lock()
+	c.Closed++
+	c.mu.Unlock()
+	c.Trace.Add(TraceEv{Kind: "cliclose"})
+}
+func (c *StreamClient) Counts() (pings, dcpCloses, closes, opens int) {
+	c.mu.Lock()
+	defer c.mu.Unlock()
+	return c.Pings, c.DcpCloses, c.Closed, c.OpenCount
 }
 
 func NewStreamClient() *StreamClient {
@@ -84,7 +152,11 @@ func (c *StreamClient) GetFailOverLogs(vb uint16) ([]gocbcore.FailoverEntry, err
 	return []gocbcore.FailoverEntry{{VbUUID: gocbcore.VbUUID(c.UUID[vb]), SeqNo: 0}}, nil
 }
 func (c *StreamClient) GetCollectionIDs(string, []string) (map[uint32]string, error) {
-	return map[uint32]string{}, nil
+	m := map[uint32]string{}
+	for k, v := range c.Colls {
+		m[k] = v
+	}
+	return m, nil
 }
 func (c *StreamClient) OpenStream(vb uint16, _ map[uint32]string, o *models.Offset, ob couchbase.Observer) error {
 	if c.OnOpen != nil {
@@ -96,6 +168,8 @@ func (c *StreamClient) OpenStream(vb uint16, _ map[uint32]string, o *models.Offs
 		call.Snap = *o.SnapshotMarker
 	}
 	c.Opens = append(c.Opens, call)
+	c.OpenCount++
+	c.Trace.Add(TraceEv{Kind: "openreq", Vb: vb})
 	err := c.OpenErr[vb]
 	if err == nil {
 		c.Observers[vb] = ob
@@ -114,6 +188,7 @@ func (c *StreamClient) CloseStream(vb uint16) error {
 	c.mu.Lock()
 	c.Closes = append(c.Closes, vb)
 	c.mu.Unlock()
+	c.Trace.Add(TraceEv{Kind: "closereq", Vb: vb})
 	return nil
 }
 func (c *StreamClient) SetOpenErr(vb uint16, err error) {
@@ -165,6 +240,7 @@ type Store struct {
 	LoadErr  error
 	Saves    int
 	Gate     bool // block in Save until Release
+	Trace    *Trace
 	FileLike bool // Load behaves like the file backend with an existing file: only the stored documents, exist = true
 }
 
@@ -193,6 +269,7 @@ func (s *Store) Save(state map[uint16]*models.CheckpointDocument, dirty map[uint
 	for k, v := range dirty {
 		call.Dirty[k] = v
 	}
+	s.Trace.Add(TraceEv{Kind: "save", Save: call})
 	s.mu.Lock()
 	s.cur = call
 	s.Saves++
@@ -256,6 +333,12 @@ func (s *Store) Release(ok bool) bool {
 	return true
 }
 
+func (s *Store) SaveCount() int {
+	s.mu.Lock()
+	defer s.mu.Unlock()
+	return s.Saves
+}
+
 func (s *Store) InFlight() bool {
 	s.mu.Lock()
 	defer s.mu.Unlock()
@@ -310,13 +393,30 @@ type Consumer struct {
 	Ctxs   []*models.ListenerContext
 	Tracks []TrackCall
 	New    []*models.ListenerContext // since last Take
+	Trace  *Trace
+	Hold   chan struct{} // when set, ConsumeEvent blocks on it after recording
 }
 
 func (c *Consumer) ConsumeEvent(ctx *models.ListenerContext) {
 	c.mu.Lock()
 	c.Ctxs = append(c.Ctxs, ctx)
 	c.New = append(c.New, ctx)
+	hold := c.Hold
 	c.mu.Unlock()
+	c.Trace.Add(TraceEv{Kind: "consume"})
+	if hold != nil {
+		<-hold
+	}
+}
+func (c *Consumer) SetHold(ch chan struct{}) {
+	c.mu.Lock()
+	c.Hold = ch
+	c.mu.Unlock()
+}
+func (c *Consumer) Count() int {
+	c.mu.Lock()
+	defer c.mu.Unlock()
+	return len(c.Ctxs)
 }
 func (c *Consumer) TrackOffset(vb uint16, o *models.Offset) {
 	c.mu.Lock()
@@ -378,6 +478,7 @@ type Handler struct {
 	HoldAt map[string]bool
 	Held   chan string   // signalled when a callback is being held
 	resume chan struct{} // released by Resume
+	Trace  *Trace
 }
 
 func NewHandler() *Handler {
@@ -388,6 +489,7 @@ func (h *Handler) cb(name string) {
 	h.Log = append(h.Log, name)
 	hold := h.HoldAt[name]
 	h.mu.Unlock()
+	h.Trace.Add(TraceEv{Kind: "cb", Name: name})
 	if hold {
 		h.Held <- name
 		<-h.resume
